@@ -34,6 +34,8 @@ class Likelihood(object):
 
     def one(self, x):
         x = [x[i] for i in range(len(x))]
+        x = [v.item() if getattr(v, 'shape', None) == () and
+             hasattr(v, 'item') else v for v in x]
         self.calls.append(x)
         ll = self.value(x)
         if self.blobs is None:
@@ -139,7 +141,7 @@ def build(W, cfg):
 
     neg = set(tuple(x) for x in cfg.get('neg_inf', []))
     S.points, S.log_l = [], []
-    blobs = [] if cfg.get('blobs') else None
+    blobs = [] if cfg.get('blobs') and B > 0 else None
     for i in range(B):
         rows, ll, bl = [], [], []
         for j in range(m[i]):
